@@ -10,6 +10,8 @@ import Adsg.Model.Steps
 import Adsg.Model.Constraints
 import Adsg.Model.Conn
 import Adsg.Model.Enc
+import Adsg.Model.Cache
+import Adsg.Model.Select
 open Lean Adsg
 
 namespace Drv
@@ -258,14 +260,37 @@ def opEager (j : Json) : R Json := do
       let x ← listOf int (← field q "x")
       let imp ← fieldD q "imp" (optOf nat) none
       let t := (tabs[p]?).join
-      let (v, act, m) := managerGet t nOpts (fun _ => imp.getD 0) x
-      let (_, row) := eagerGet t nOpts (fun _ => imp.getD 0) x
+      let (v, act, m) := managerGetImpl t nOpts (fun _ => imp.getD 0) x
+      let (_, row) := eagerGetImpl t nOpts (fun _ => imp.getD 0) x
       return Json.mkObj [("v", jList jInt v), ("act", jList Json.bool act), ("m", jOpt jMat m),
         ("row", jOpt jNat row), ("hit", Json.bool (match t with | some t => (t.hit (clampVec nOpts x)).isSome | none => false))])
     (← fieldD j "queries" pure (Json.arr #[]))
   let alldv := tabs.map (fun t => match t with | some t => jList (jList jInt) (allDesignVectors t nOpts) | none => Json.null)
   return Json.mkObj [("wf", Json.arr wf.toArray), ("two_values", Json.bool two), ("all_dv", Json.arr alldv.toArray),
     ("results", Json.arr qs.toArray)]
+
+/-! ### caches / selection -/
+
+def fullSettings (j : Json) : R FullSettings := do
+  return { s := ← connSettings (← field j "s"), pats := ← listOf existence (← field j "es") }
+
+/-- are the structured cache keys of two settings equal? -/
+def opKeyEq (j : Json) : R Json := do
+  let a ← fullSettings (← field j "a")
+  let b ← fullSettings (← field j "b")
+  return Json.bool (decide (keyOf a = keyOf b))
+
+def score (j : Json) : R Score := do
+  return { impRatio := ← nat (← field j "imp"), infIdx := ← nat (← field j "inf"),
+           distCorr := ← fieldD j "dc" (optOf int) none }
+
+def opGetBest (j : Json) : R Json := do
+  let p : SelParams := { one := ← nat (← field j "one"), limits := ← listOf nat (← field j "limits"),
+                         minCorr := ← int (← field j "min_corr") }
+  let scores ← listOf score (← field j "scores")
+  let byInf ← bool (← field j "by_inf")
+  let np ← fieldD j "n_priority" (optOf nat) none
+  return jOpt jNat (getBest p scores byInf np)
 
 def dispatch (op : String) (j : Json) : R Json :=
   match op with
@@ -279,6 +304,8 @@ def dispatch (op : String) (j : Json) : R Json :=
   | "matrices" => opMatrices j
   | "bounded_comp" => opBoundedComp j
   | "eager" => opEager j
+  | "key_eq" => opKeyEq j
+  | "get_best" => opGetBest j
   | "correct_value" => opCorrect j
   | "decode_dv" => opDecodeDV j
   | "metrics" => opMetrics j
